@@ -405,6 +405,47 @@ def kept_interface(ctx):
                     ctx.count("kept_interface_cases")
 
 
+def construction_order_of_species(ctx):
+    """one definition reached two ways in the same process: built at once with the species declared as X, Y, and built up from
+    Y alone with X arriving later through a reaction (so that the species sit in the other order) - formulas written as text
+    (general rates) read the same species either way."""
+    from bioscrape.types import Model
+    from bioscrape.simulator import py_simulate_model
+    from bioscrape.random import py_seed_random
+    T = np.linspace(0, 5, 51)
+
+    def at_once():
+        return Model(species=["X", "Y"], reactions=[([], ["Y"], "massaction", {"k": "b"}), (["X"], ["X", "Y"], "general", {"rate": "d*X/(1 + Y/100)"}), (["X"], [], "general", {"rate": "d*X"})],
+                     parameters=[("b", 2.0), ("d", 0.5)], initial_condition_dict={"X": 50, "Y": 0})
+
+    def step_by_step():
+        M = Model(species=["Y"], reactions=[([], ["Y"], "massaction", {"k": "b"})], parameters=[("b", 2.0)], initial_condition_dict={"Y": 0})
+        py_simulate_model(T.copy(), Model=M)
+        M.create_reaction(["X"], ["X", "Y"], "general", {"rate": "d*X/(1 + Y/100)"})
+        M.create_reaction(["X"], [], "general", {"rate": "d*X"})
+        M.set_parameter("d", 0.5)
+        M.set_species({"X": 50})
+        M.py_initialize()
+        return M
+    for first in ("at once first", "step by step first"):
+        a, b = (at_once(), step_by_step()) if first.startswith("at once") else tuple(reversed((step_by_step(), at_once())))
+        for stochastic in (False, True):
+            case = {"scenario": "species order of construction", "built_first": first, "stochastic": stochastic}
+            ctx.begin_case(case)
+            py_seed_random(424242); ra = py_simulate_model(T.copy(), Model=a, stochastic=stochastic)
+            py_seed_random(424242); rb = py_simulate_model(T.copy(), Model=b, stochastic=stochastic)
+            ctx.evaluated()
+            for s_ in ("X", "Y"):
+                va, vb = np.array(ra[s_].values, dtype=float), np.array(rb[s_].values, dtype=float)
+                same = np.array_equal(va, vb) if stochastic else np.allclose(va, vb, rtol=1e-7, atol=1e-9)
+                ok_x = stochastic or s_ != "X" or (np.max(np.abs(va - 50 * np.exp(-0.5 * T))) < 1e-3 and np.max(np.abs(vb - 50 * np.exp(-0.5 * T))) < 1e-3)
+                if not same or not ok_x:
+                    ctx.violation("history-dependence/species-order", "the same definition built at once and step by step (%s): %s ends at %g and %g (X must follow 50 exp(-t/2))"
+                                  % (first, s_, va[-1], vb[-1]), case)
+                    return
+            ctx.count("construction_order_cases")
+
+
 def sampler_history(ctx, rng):
     """the outcome of a seeded delay simulation does not depend on which distributions were sampled earlier in the process:
     a gamma-delay model simulated right after another gamma-delay model with the same shape and another scale, and again
@@ -459,6 +500,7 @@ def run(ctx):
     C19.incremental_lineage_models(ctx, rng, 8 if ctx.quick() else 120)
     C19.parameter_free_rules(ctx)
     kept_interface(ctx)
+    construction_order_of_species(ctx)
 
 
 def replay(ctx, obj):
